@@ -1469,3 +1469,26 @@ def rule_wps_exits(ctx, m):
                               lp.line, facts={'witness': r[1]})
             elif r[0] == 'unknown':
                 ctx.undecided('R-CLAMP', inst, r[1])
+
+
+def rule_direct_identity(ctx, m):
+    """When the pyx wrappers use the caller's full matrix directly as compact buffer (required width == len2 + 1 and
+    required length == rows * cols), the compact layout must coincide with the full matrix: position q holds matrix
+    column q in EVERY row, i.e. delta = -1 in every non-empty region."""
+    pdefs, praw = parts_defs(m)
+    info = analyse_writer(m, WRITERS[0])
+    f = info['func']
+    for R in info['regions']:
+        guards = [sub(V('ri'), R.lo), sub(sub(R.hi, V('ri')), C(1)), sub(V('P_width'), add(V('L2'), C(1))), sub(add(V('L2'), C(1)), V('P_width'))]
+        r = decide_equal(pdefs, R.delta, C(-1), guards)
+        inst = '%s region %s identity layout when width == len2 + 1' % (WRITERS[0], R.name)
+        if r[0] == 'equal':
+            ctx.held('R-MAP', inst, 'proved in %d regimes' % r[1])
+        elif r[0] == 'differ':
+            wv = r[1]
+            ctx.violation('R-MAP', m.pyx('dtw_cc').path, 'warping_paths', 'direct matrix with shifted region %s' % R.name,
+                          'the wrappers write straight into the caller\'s (len1+1) x (len2+1) matrix whenever the compact width equals len2 + 1, but in region %s the '
+                          'compact layout is shifted (position q holds column q%+d, not q-1): at %s the rows of that region come out shifted in the returned full matrix '
+                          '(the distance is right, the matrix and every path traced from it are not)' % (R.name, r[2], kern._fmtw(wv)), R.loop.line, facts={'witness': wv})
+        else:
+            ctx.undecided('R-MAP', inst, r[1])
